@@ -92,16 +92,17 @@ class C15(Prop):
 
     def streams(self, tier, rng):
         rows = self.rows()
-        nv = {"quick": 3, "search": 6, "thorough": 25}[tier]
+        nv = {"quick": 3, "search": 6, "thorough": 60}[tier]
         yield "accessor-table", [("t0", ["-"])]
         yield "accessor", ga.pair_cases(rows, rng, nv)
         yield "accessor", ga.getter_only_cases(rows, rng, max(1, nv // 2))
         yield "accessor", ga.reading_cases(rows, rng, nv * 4)
-        yield "accessor", ga.sequence_cases(rows, rng, {"quick": 1500, "search": 4000, "thorough": 20000}[tier], 4 if tier != "thorough" else 6)
-        yield "accessor-any", ga.malformed_cases(rows, rng, {"quick": 3000, "search": 8000, "thorough": 40000}[tier])
-        yield "accessor-any", ga.wild_setter_cases(rows, rng, {"quick": 2000, "search": 6000, "thorough": 40000}[tier])
+        yield "accessor", ga.sequence_cases(rows, rng, {"quick": 1500, "search": 4000, "thorough": 100000}[tier], 4 if tier != "thorough" else 6)
+        yield "accessor-any", ga.malformed_cases(rows, rng, {"quick": 3000, "search": 8000, "thorough": 200000}[tier])
+        yield "accessor-any", ga.wild_setter_cases(rows, rng, {"quick": 2000, "search": 6000, "thorough": 150000}[tier])
+        yield "accessor-any", ga.pool_path_cases(rows)
         yield "accessor-any", ga.exhaustive_raw_cases(rows, {"quick": 3, "search": 3, "thorough": 4}[tier])
-        yield "control-select", ga.control_cases(rng, {"quick": 1500, "search": 4000, "thorough": 20000}[tier], tier)
+        yield "control-select", ga.control_cases(rng, {"quick": 1500, "search": 4000, "thorough": 100000}[tier], tier)
 
     # ------------------------------------------------------------------ oracle
     def oracle(self, stream, fields, impl):
